@@ -4,6 +4,7 @@ import (
 	"fmt"
 	"reflect"
 	"sort"
+	"strings"
 	"sync"
 	"sync/atomic"
 
@@ -153,6 +154,67 @@ func c06(r *report.Run) {
 			}
 		})
 	}
+	// Wrapped family: a run is charged for what it has to create ONCE. For every collection-valued expression E
+	// of <= 4 nodes needing a elements, `len(E) in 0..1` (and `not in`) has to create at most a + 2, so under the
+	// budget a + 3 it must complete, whatever the optimizer does with the membership test.
+	type wrapped struct {
+		c     *c06Case
+		progs [][]*vm.Program // per wrapper, per mode
+	}
+	wrappers := []string{"len(%s) in 0..1", "len(%s) not in 0..1", "len(%s) + 1 in 1..2"}
+	var ws []*wrapped
+	maxNeed := 0
+	for _, c := range cases {
+		if c.e.Size() > 4 || !(c.e.R.Out == gen.TIntArr || c.e.R.Out == gen.TAnyArr || c.e.R.Out == gen.TAnyMap) {
+			continue
+		}
+		w := &wrapped{c: c}
+		for _, f := range wrappers {
+			var ps []*vm.Program
+			for _, m := range sl.modes {
+				p, err := lib.Compile(fmt.Sprintf(f, c.e.String()), m)
+				if err != nil {
+					p = nil
+				}
+				ps = append(ps, p)
+			}
+			w.progs = append(w.progs, ps)
+		}
+		for i, nd := range c.need {
+			if !c.rfail[i] && nd > maxNeed {
+				maxNeed = nd
+			}
+		}
+		ws = append(ws, w)
+	}
+	var wrappedRuns int64
+	for b := 3; b <= maxNeed+3; b++ {
+		vm.MemoryBudget = b
+		par.For(len(ws), func(i int) {
+			w := ws[i]
+			for vi, v := range w.c.vals {
+				if w.c.rfail[vi] || w.c.need[vi]+3 != b {
+					continue
+				}
+				for wi := range wrappers {
+					for mi, m := range sl.modes {
+						p := w.progs[wi][mi]
+						if p == nil {
+							continue
+						}
+						_, err := lib.Run(p, m.RunEnv(henv.Make(v), w.c.names))
+						atomic.AddInt64(&wrappedRuns, 1)
+						if err != nil && strings.Contains(err.Error(), "memory budget") {
+							r.Report(report.Violation{Sub: m.String(), Kind: "charged-more-than-once", Witness: fmt.Sprintf(wrappers[wi], w.c.e.String()), Order: int64(1)<<40 + int64(i),
+								Detail: map[string]interface{}{"budget": b, "env": v.Describe(), "elements_the_operand_creates": w.c.need[vi], "error": err.Error()}})
+						}
+					}
+				}
+			}
+		})
+	}
+	runs += wrappedRuns
+	r.Set("wrapped_membership_runs", wrappedRuns)
 	// Sequential phase: shrink each failure (vm.MemoryBudget is a package variable).
 	sort.Slice(fails, func(i, j int) bool {
 		if fails[i].idx != fails[j].idx {
